@@ -14,7 +14,7 @@ use crate::track::{Track, TrackFixed};
 use crate::types::*;
 
 pub const N_THEN: u8 = 11;
-pub const N_TARGETS: u8 = 5;
+pub const N_TARGETS: u8 = 8;
 
 fn fmt_ids(s: &crate::exec::Snap) -> String { format!("{:?}", s.iter().map(|x| x.0).collect::<Vec<_>>()) }
 
@@ -224,6 +224,10 @@ impl<T: Elem + SatisfyTraits<Tr>, M: MX, Tr: TrX + ?Sized> World<T, M, Tr> {
             2 => if T::ALIGN <= 8 { go!(StackN<2, 512>, StackN::<2, 512>) } else { out.outcome.push_str("skipped-align") },
             3 => go!(Track, Track),
             4 => go!(TrackFixed<2>, TrackFixed::<2>),
+            // zero-capacity fixed backends: an empty vector always fits
+            5 => if T::ALIGN <= 8 { go!(Stack<0>, Stack::<0>) } else { out.outcome.push_str("skipped-align") },
+            6 => if T::ALIGN <= 8 { go!(StackN<0, 0>, StackN::<0, 0>) } else { out.outcome.push_str("skipped-align") },
+            7 => go!(any_vec::mem::Empty, any_vec::mem::Empty),
             _ => out.outcome.push_str("skipped"),
         }
     }
